@@ -341,7 +341,7 @@ func newWorld(ifis []config.Interface, fwd bool) *world {
 		func(*net.Interface, func() ([]net.Addr, error)) error { return nil },
 		func(ifi *net.Interface) (system.VerifNDPConn, netip.Addr, error) {
 			w.mu.Lock()
-			c := &fconn{w: w, id: len(w.conns), in: make(chan inMsg, 64), dl: make(chan struct{})}
+			c := &fconn{w: w, id: len(w.conns), in: make(chan inMsg, 256), dl: make(chan struct{})}
 			w.conns = append(w.conns, c)
 			w.mu.Unlock()
 			vsched.Obs("conn-open", "conn=%d", c.id)
